@@ -5,6 +5,7 @@ import Nsl.Model.SrcMap
 import Nsl.Model.Prec
 import Nsl.Model.Types
 import Nsl.Model.Overload
+import Nsl.Model.OverloadAgg
 import Nsl.Model.Flow
 import Nsl.Model.Static
 import Nsl.Model.WF
@@ -206,6 +207,8 @@ def handle (st : DState) (line : String) : DState × String :=
       | some as, some ss => Overload.resultStr (Overload.findFunction [ss] name as) ++ " " ++
                             Overload.resultStr (Overload.Spec.best ss name as)
       | _, _ => "error")
+  | "ovla" :: name :: args :: sigs => (st, Overload.runA name args sigs)
+  | "ovla2" :: name :: args :: sigs => (st, Overload.runA name args sigs)
   | "flow" :: _ => (st, Flow.run (restOfLine line 1))
   | "static" :: _ => (st, Static.run (restOfLine line 1))
   | "names" :: _ => (st, Names.run (restOfLine line 1))
